@@ -569,12 +569,22 @@ var watchdogOnce sync.Once
 func startWatchdog() {
 	watchdogOnce.Do(func() {
 		go func() {
+			var lag time.Duration // how much longer than asked this goroutine slept while the current case ran
+			var lagFor int64
 			for {
+				t0 := time.Now()
 				time.Sleep(time.Second)
+				over := time.Since(t0) - time.Second
 				c := currentCase.Load()
 				st := currentStart.Load()
 				if c == nil || st == 0 {
 					continue
+				}
+				if st != lagFor {
+					lag, lagFor = 0, st
+				}
+				if over > 0 {
+					lag += over
 				}
 				if d := time.Since(time.Unix(0, st)); d > hangLimit {
 					// Wall-clock time alone would blame the library for a starved machine. A case counts as
@@ -582,6 +592,12 @@ func startWatchdog() {
 					// (blocked on a lock), or when nine times the limit has passed whatever the machine did.
 					cpu := processCPU() - time.Duration(currentCPU.Load())
 					if cpu < hangLimit*3/4 && cpu > hangLimit/10 && d < 9*hangLimit {
+						continue
+					}
+					// "next to no CPU time" also describes a process that was runnable all along and not
+					// given a CPU: time spent waiting in the run queue is the machine's, not the library's
+					// (this watchdog oversleeping is the sign: a timer that fires late means the process was not scheduled)
+					if cpu <= hangLimit/10 && lag > d/5 && d < 9*hangLimit {
 						continue
 					}
 					cc := *c
@@ -628,6 +644,15 @@ func checkRapid(t *testing.T, property, check, rule string, draw func(rt *rapid.
 		enterCase(c)
 		msg := safeRun(fn, c, st)
 		leaveCase()
+		if marker := os.Getenv("VERIF_DEV_FAKE_HANG"); marker != "" && st.Shard == 0 && st.Cases == 50 {
+			// development aid: pretend the hang detector fired once (exercises the driver's second attempt)
+			if _, err := os.Stat(marker); err != nil {
+				_ = os.WriteFile(marker, []byte("x"), 0o644)
+				Pending(c)
+				fmt.Fprintf(os.Stderr, "\nHANG-DETECTED check=%s (faked)\n", c.Check)
+				os.Exit(3)
+			}
+		}
 		if msg != "" && len(c.Prefix) == 0 {
 			c.Prefix = before
 		}
